@@ -23,7 +23,7 @@ ASSUMPTIONS = [
     "the field tuple of an Address is read through its own accessors (Host() via inet_pton, Port(), IsV6(), %scope)",
 ]
 TRUSTED = ["libstdc++ std::map / std::unordered_map / hash<string_view> (modelled as sorted list / bucket list / function of the bytes)"]
-ALL_TAGS = ["parse", "pair", "port", "locals", "respell", "udp.plain", "udp.buf", "udp.async", "dgram",
+ALL_TAGS = ["connectvia", "parse", "pair", "port", "locals", "respell", "udp.plain", "udp.buf", "udp.async", "dgram",
             "acceptor.plain", "acceptor.async", "connect.plain", "connect.buf", "connect.async", "close",
             "v4", "v6", "scoped", "cmp.eq", "cmp.eq.xprov", "cmp.lt", "cmp.gt", "cmp.mixed", "cmpall", "maps"]
 EXHAUSTIVE = {"thorough": False}
@@ -182,9 +182,28 @@ def rand_case(rng, tier):
     return ops
 
 
+def dual_case(rng):
+    """IPv4 client -> dual-stack (wildcard IPv6) acceptor: the two ends see different families (known finding F7)"""
+    ops = ["parse w %s" % hx("[::]:0"), "parse b4 %s" % hx("127.0.0.1:0"), "parse b6 %s" % hx("[::1]:0"),
+           "acceptor Aw %s w" % rng.choice(["plain", "async"]),
+           "connectvia c1 %s Aw b6" % rng.choice(["plain", "buf", "async"]),     # IPv6 client: both ends agree
+           "connectvia m2 %s Aw b4" % rng.choice(["plain", "buf", "async"]),     # IPv4 client: v4 vs v4-mapped
+           "cmpall", "maps"]
+    return ops
+
+
 def gen(rng, tier):
     count = 120 if tier == "quick" else 600
-    return [("address_order", "a%d" % k, rand_case(rng, tier)) for k in range(count)]
+    cases = [("address_order", "a%d" % k, rand_case(rng, tier)) for k in range(count)]
+    cases += [("address_order", "dual%d" % k, dual_case(rng)) for k in range(3)]
+    return cases
+
+
+def matches_known(k, ops, msg, tr):
+    import re
+    if k.get("id") == "F7-dualstack-endpoint":
+        return bool(re.match(r"m\d+: client (Local|Peer)Address differs from", msg)) and any(o.startswith("connectvia m") for o in ops)
+    return False
 
 
 TECHNIQUE = "Lean 4 theorems (strict total order / equivalence / injectivity over all byte images) + model/implementation correspondence on real sockets"
